@@ -286,10 +286,19 @@ class Reader:
             raise IOError("Reader not open; call `open` before `read`")
         if hasattr(self, 'raw_channel_order'):
             csel = self.raw_channel_order[csel]
+        flip = False
+        if self.is_mtscomp and isinstance(nsel, slice) and nsel.step is not None and nsel.step < 0:
+            # mtscomp only implements forward slices: read the same samples forward, then reverse them
+            isamples = range(*nsel.indices(self.ns))
+            flip = len(isamples) > 0
+            nsel = slice(isamples[-1], isamples[0] + 1, -isamples.step) if flip else slice(0, 0)
         darray = self._raw[nsel, :].astype(np.float32, copy=True)[..., csel]
+        if flip:
+            darray = darray[::-1]
         darray *= self.channel_conversion_sample2v[self.type][csel]
         if sync:
-            return darray, self.read_sync(nsel)
+            sync_traces = self.read_sync(nsel)
+            return darray, (sync_traces[::-1] if flip else sync_traces)
         else:
             return darray
 
